@@ -275,7 +275,7 @@ fn visit_tcp(
             EOL => {
                 olayout.push(TcpOption::Eol(buf.len() as u8));
 
-                if buf.iter().any(|&b| b != 0) {
+                if buf.iter().any(|&b| b != 0) && !quirks.contains(&Quirk::TrailinigNonZero) {
                     quirks.push(Quirk::TrailinigNonZero);
                 }
             }
@@ -295,7 +295,7 @@ fn visit_tcp(
                 if let Some(&shift) = data.first() {
                     wscale = Some(shift);
 
-                    if shift > 14 {
+                    if shift > 14 && !quirks.contains(&Quirk::ExcessiveWindowScaling) {
                         quirks.push(Quirk::ExcessiveWindowScaling);
                     }
                 }
@@ -315,7 +315,9 @@ fn visit_tcp(
                             "Failed to convert slice to array for timestamp value".to_string(),
                         )
                     })?;
-                    if u32::from_be_bytes(ts_val_bytes) == 0 {
+                    if u32::from_be_bytes(ts_val_bytes) == 0
+                        && !quirks.contains(&Quirk::OwnTimestampZero)
+                    {
                         quirks.push(Quirk::OwnTimestampZero);
                     }
                 }
@@ -326,7 +328,9 @@ fn visit_tcp(
                             "Failed to convert slice to array for peer timestamp value".to_string(),
                         )
                     })?;
-                    if u32::from_be_bytes(ts_peer_bytes) != 0 {
+                    if u32::from_be_bytes(ts_peer_bytes) != 0
+                        && !quirks.contains(&Quirk::PeerTimestampNonZero)
+                    {
                         quirks.push(Quirk::PeerTimestampNonZero);
                     }
                 }
